@@ -26,7 +26,9 @@ def _plain(o):
     if isinstance(o, Fraction):
         return str(o)
     if isinstance(o, float):
-        return str(Fraction(o))
+        fr = Fraction(o)
+        simple = fr.limit_denominator(10 ** 6)
+        return str(simple if float(simple) == o else fr)
     if isinstance(o, (list, tuple)):
         return [_plain(x) for x in o]
     if isinstance(o, dict):
@@ -43,7 +45,7 @@ def run_one(pid, tier, job):
     for k, kind in kinds.items():
         val = job["values"].get(k, 0)
         if kind == "real":
-            val = Fraction(val)
+            val = float(Fraction(val))   # the real code works on doubles
         elif kind == "bool":
             val = bool(val)
         else:
